@@ -67,7 +67,7 @@ func main() {
 		h.model = m
 		defer m.Close()
 	}
-	run.SetRule("served: every multiset of ≤3 (thorough ≤4) edges over the timestamps {t, t+1ns, t+1s(, t+2s)} with unique ids in seeded order × atOrAfterTime,beforeTime ∈ {absent} ∪ 4 instants × after,before ∈ {absent} ∪ cursors(D) ∪ 4 foreign cursors (an edge's instant with another id, before everything, an instant no edge carries — inside and outside the window) × first|last ∈ 0..|D|+1, getter tie-break ∈ {id, reverse-id, seeded}, delivery ∈ {sync, promise, mixed} and empty-range representation ∈ {empty slice, typed nil, untyped nil} seeded; walks for every page size × time window; the same over ≤2 edges on instants at both ends of the int64 nanosecond range; getter replies as fresh slices or (1 in 4) as windows of its own long-lived []any store, followed by a request for everything on that store; TimeBasedRangeQueries directly over cursors × windows × limits; far-away time bounds (years 1, 1000, 2500, 9999: outside the int64 nanosecond range) × cursors × counts; random larger data sets. distinct = distinct canonical case; non-trivial = the data set has a repeated timestamp and TimeRef's page is a non-empty proper part of it (served), the walk needs more than one page, a cursor is given (queries)")
+	run.SetRule("served: every multiset of ≤3 (thorough ≤4) edges over the timestamps {t, t+1ns, t+1s(, t+2s)} with unique ids in seeded order × atOrAfterTime,beforeTime ∈ {absent} ∪ 4 instants × after,before ∈ {absent} ∪ cursors(D) ∪ 4 foreign cursors (an edge's instant with another id, before everything, an instant no edge carries — inside and outside the window) × first|last ∈ 0..|D|+1, getter tie-break ∈ {id, reverse-id, seeded}, delivery ∈ {sync, promise, mixed} and empty-range representation ∈ {empty slice, typed nil, untyped nil} seeded; walks for every page size × time window; the same over ≤2 edges on instants at both ends of the int64 nanosecond range; getter replies as fresh slices or (1 in 4) as windows of its own long-lived []any store, followed by a request for everything on that store; TimeBasedRangeQueries directly over cursors × windows × limits; far-away time bounds (years 1, 1000, 2500, 9999: outside the int64 nanosecond range) × cursors × counts; random larger data sets. explicit nulls for every subset of the absent arguments (literal and variable); one connection field resolved 2–3 times in one request (list of parents / aliases with a custom argument), each resolution with its own data set; codec tie for TimeBasedCursor (boundary values, hand-built and corrupted msgpack). distinct = distinct canonical case; non-trivial = the data set has a repeated timestamp and TimeRef's page is a non-empty proper part of it (served), the walk needs more than one page, a cursor is given (queries), a codec operation, at least two resolutions have edges (multi)")
 
 	if run.Replay != "" {
 		var c Case
@@ -100,6 +100,11 @@ func main() {
 	for _, e := range []TEdge{{0, ""}, {1, "a"}, {-1, "ü"}, {base, "id"}, {base + 1, strings.Repeat("x", 40)}, {1<<62 - 1, "z"}, {-(1 << 62), "\x00"}, {255, "a b"}, {65536, "\"q\""}} {
 		h.check(Case{Kind: "codec", Codec: &TEdge{e.T, e.Id}})
 	}
+
+	// ---- codec tie: the Lean codec model against SerializeCursor/DeserializeCursor of TimeBasedCursor (codec.go)
+	tieStart := run.Elapsed()
+	h.genCodecTie()
+	run.Note("codec tie: %d cases in %.1f s", run.Distribution("kind:codectie"), (run.Elapsed() - tieStart).Seconds())
 
 	// ---- the time universe
 	times := []int64{base + 1e9, base + 1e9 + 1, base + 2e9}
@@ -172,7 +177,7 @@ func main() {
 							for _, b := range curs {
 								for n := 0; n <= k+1; n++ {
 									for _, fwd := range []bool{true, false} {
-										r := TReq{After: a, Before: b, AtOrAfter: t1, BeforeT: t2, SelPI: R.Chance(3, 4), SelTC: R.Chance(1, 4), Vars: R.Chance(1, 3)}
+										r := TReq{After: a, Before: b, AtOrAfter: t1, BeforeT: t2, SelPI: R.Chance(3, 4), SelTC: R.Chance(1, 4), Vars: R.Chance(1, 3), NullMask: nullMask(R)}
 										if fwd {
 											r.First = ip(n)
 										} else {
@@ -235,6 +240,43 @@ func main() {
 		r := TReq{First: fl[0], Last: fl[1], SelPI: true, AtOrAfter: i64(times[0])}
 		h.add(Case{Kind: "served", D: D3, Tie: "id", Async: hx.Pick(R, asyncs), Empty: hx.Pick(R, emptyNames), ReplyAs: replyAs(R), Seed: R.Uint64() >> 1, Req: &r})
 	}
+
+	// ---- explicit nulls: every subset of the absent arguments spelled `null` (literal and variable),
+	// with a count in either direction, alone and with a cursor and a time bound present
+	for mask := 0; mask < 64; mask++ {
+		for _, vars := range []bool{false, true} {
+			for _, fwd := range []bool{true, false} {
+				for _, n := range []int{0, 2} {
+					for k := 0; k < 2; k++ {
+						r := TReq{SelPI: true, SelTC: R.Chance(1, 4), Vars: vars, NullMask: mask}
+						if fwd {
+							r.First = ip(n)
+						} else {
+							r.Last = ip(n)
+						}
+						if k == 1 {
+							e := D3[R.Intn(len(D3))]
+							c := &CurArg{Kind: "emitted", T: e.T, Id: e.Id, S: emit(e)}
+							if R.Bool() {
+								r.After = c
+							} else {
+								r.Before = c
+							}
+							if R.Bool() {
+								r.AtOrAfter = i64(times[0])
+							} else {
+								r.BeforeT = i64(times[len(times)-1])
+							}
+						}
+						h.add(Case{Kind: "served", D: D3, Tie: "id", Async: hx.Pick(R, asyncs), Empty: hx.Pick(R, emptyNames), ReplyAs: replyAs(R), Seed: R.Uint64() >> 1, Req: &r})
+					}
+				}
+			}
+		}
+	}
+
+	// ---- one connection field resolved several times in one request (multi.go)
+	h.genMulti(times)
 
 	// ---- far-away time bounds (outside the int64 nanosecond range): a lower bound in the year 1000
 	// and an upper bound in 9999 constrain nothing, the other way round they exclude everything
@@ -337,7 +379,7 @@ func main() {
 				return &CurArg{Kind: "emitted", T: e.T, Id: e.Id, S: emit(e)}
 			}
 		}
-		rq := TReq{After: pickCur(), Before: pickCur(), AtOrAfter: pickT(), BeforeT: pickT(), SelPI: r.Chance(3, 4), SelTC: r.Chance(1, 4), Vars: r.Bool()}
+		rq := TReq{After: pickCur(), Before: pickCur(), AtOrAfter: pickT(), BeforeT: pickT(), SelPI: r.Chance(3, 4), SelTC: r.Chance(1, 4), Vars: r.Bool(), NullMask: nullMask(r)}
 		if r.Bool() {
 			rq.First = ip(r.Range(0, n+1))
 		} else {
